@@ -2,7 +2,7 @@
    followed by Print Assumptions.  [O] is an arbitrary property package + solver; [contracts O] is
    what is assumed about it (homogeneity of H and S in mol, H(0) = 0, 'L'/'S' use the models of 'l'/'s', and: a
    returned temperature satisfies the equation that was to be solved). *)
-From V Require Import Common.NumFacts C02.Model C02.ModelX C02.Proofs C02.ProofsDeep C02.ProofsX.
+From V Require Import Common.NumFacts C02.Model C02.ModelX C02.ModelS C02.Proofs C02.ProofsDeep C02.ProofsX C02.ProofsS.
 Open Scope Q_scope.
 
 (* ---------------------------------------------------------------- mixing *)
@@ -618,3 +618,92 @@ Proof.
   split; [repeat constructor; simpl; discriminate|]. split; [left; reflexivity|].
   eexists. split; [vm_compute; reflexivity|]. split; [reflexivity|vm_compute; reflexivity].
 Qed.
+
+(* ---------------------------------------------------------------- histories of temperature solves (ModelS.v)
+   The [oracles] record above takes the solver to be a FUNCTION of (flows, target, guess, pressure).  That is a statement
+   about mixture.py: the four wrappers hand the iteration function a scratch list [counter, Cn] and the last heat capacity
+   must not outlive the solve.  Here the scratch lists are cells of a process-wide heap, the iteration function mutates
+   the cell it is given, and the driver (standing for flexsolve.aitken) is any sequence of relaxed fixed-point steps. *)
+(* the k-th solve of any history, in any process state, returns / raises exactly what the same request does alone, and
+   ends with the same scratch-list content *)
+Theorem C02_solve_history_free : forall tol before r after p,
+  nth_error (fst (solve_seq tol p (before ++ r :: after))) (length before) = Some (solve_alone tol r).
+Proof. exact solve_history_free. Qed.
+Print Assumptions C02_solve_history_free.
+Theorem C02_solve_seq_is_map : forall tol rs p, fst (solve_seq tol p rs) = map (solve_alone tol) rs.
+Proof. exact solve_seq_obs. Qed.
+Print Assumptions C02_solve_seq_is_map.
+(* frame: the scratch lists that existed are left as they were, every solve adds its own, the work-space ends empty *)
+Theorem C02_solve_seq_frame : forall tol rs h w,
+  snd (solve_seq tol (h, w) rs) =
+  (h ++ map (fun r => snd (solve_alone tol r)) rs, match rs with [] => w | _ => [] end).
+Proof. exact solve_seq_state. Qed.
+Print Assumptions C02_solve_seq_frame.
+(* a solve alone IS the wrapper of Model.v with the driver as its aitken oracle (both variables) *)
+Theorem C02_solve_refines_HP : forall H Hm Cnm ws sec tol Tg,
+  fst (solve1 (formula_HP H Hm) Cnm ws sec tol Tg) =
+  solve_T_at_HP (aitken_of (formula_HP H Hm) Cnm ws) sec tol H Tg Hm Cnm.
+Proof. exact solve1_refines_HP. Qed.
+Print Assumptions C02_solve_refines_HP.
+Theorem C02_solve_refines_SP : forall expf S Sm Cnm ws sec tol Tg,
+  fst (solve1 (formula_SP expf S Sm) Cnm ws sec tol Tg) =
+  solve_T_at_SP expf (aitken_of (formula_SP expf S Sm) Cnm ws) sec tol S Tg Sm Cnm.
+Proof. exact solve1_refines_SP. Qed.
+Print Assumptions C02_solve_refines_SP.
+(* and the iteration functions on a cell are those of Model.v *)
+Theorem C02_iter_cell_is_iter : forall expf T X Xm Cnm c,
+  iter_T_at_HP T X Xm Cnm c = lift (iter_cell (formula_HP X Xm) Cnm T c) /\
+  iter_T_at_SP expf T X Xm Cnm c = lift (iter_cell (formula_SP expf X Xm) Cnm T c).
+Proof. intros; split; [apply iter_cell_HP|apply iter_cell_SP]. Qed.
+Print Assumptions C02_iter_cell_is_iter.
+(* with a temperature-independent heat capacity (every ideal package whose Cn models are constants; the stub) each
+   iteration of each solve of a history uses THIS request's heat capacity: the solve is the scratch-free [solve0] *)
+Theorem C02_solve_history_own_Cn : forall tol before r after p cn,
+  (forall T, rq_Cn r T = cn) ->
+  exists c, nth_error (fst (solve_seq tol p (before ++ r :: after))) (length before) =
+            Some (solve0 (rq_g r) cn (rq_ws r) (rq_sec r) tol (rq_T r), c).
+Proof. exact solve_history_own_Cn. Qed.
+Print Assumptions C02_solve_history_own_Cn.
+(* hence: once the driver is at a temperature where the entropy (enthalpy) model gives the assigned value, the solve hands
+   out that temperature, whatever was solved before it -- the read-back clause of the S / H setters for this wrapper *)
+Theorem C02_solve_history_root_SP : forall tol before after p expf S Sm cn ws sec Tg load T,
+  0 <= tol -> ~ cn == 0 -> Sm T == S -> expf ((S - Sm T) / cn) == 1 ->
+  drive0 (fun T => formula_SP expf S Sm T cn) ws Tg = Ok T ->
+  exists T' c, T' == T /\
+    nth_error (fst (solve_seq tol p (before ++ mkReq (formula_SP expf S Sm) (fun _ => cn) ws sec Tg load :: after)))
+              (length before) = Some (Ok T', c).
+Proof.
+  intros tol before after p expf S Sm cn ws sec Tg load T Htol Hcn HS He Hd.
+  destruct (formula_SP_root expf S Sm T cn Hcn HS He) as [T' [Hf HT]].
+  destruct (solve_history_own_Cn tol before (mkReq (formula_SP expf S Sm) (fun _ => cn) ws sec Tg load) after p cn
+              (fun _ => eq_refl)) as [c Hc].
+  exists T', c. split; [exact HT|]. rewrite Hc. cbn [rq_g rq_ws rq_sec rq_T].
+  rewrite (solve0_root _ _ _ _ _ _ _ _ Htol Hd Hf HT). reflexivity.
+Qed.
+Print Assumptions C02_solve_history_root_SP.
+Theorem C02_solve_history_root_HP : forall tol before after p H Hm cn ws sec Tg load T,
+  0 <= tol -> ~ cn == 0 -> Hm T == H ->
+  drive0 (fun T => formula_HP H Hm T cn) ws Tg = Ok T ->
+  exists T' c, T' == T /\
+    nth_error (fst (solve_seq tol p (before ++ mkReq (formula_HP H Hm) (fun _ => cn) ws sec Tg load :: after)))
+              (length before) = Some (Ok T', c).
+Proof.
+  intros tol before after p H Hm cn ws sec Tg load T Htol Hcn HH Hd.
+  destruct (formula_HP_root H Hm T cn Hcn HH) as [T' [Hf HT]].
+  destruct (solve_history_own_Cn tol before (mkReq (formula_HP H Hm) (fun _ => cn) ws sec Tg load) after p cn
+              (fun _ => eq_refl)) as [c Hc].
+  exists T', c. split; [exact HT|]. rewrite Hc. cbn [rq_g rq_ws rq_sec rq_T].
+  rewrite (solve0_root _ _ _ _ _ _ _ _ Htol Hd Hf HT). reflexivity.
+Qed.
+Print Assumptions C02_solve_history_root_HP.
+(* non-vacuity: a 1/1024-scale entropy solve followed by a 1024-scale one (S = F (T/4 + 8), Cn = 64 F, exp y ~ 1 + y,
+   target the value at 350 K): the second lands where it lands when made alone, with its own heat capacity in its list *)
+Definition exReq (F : Q) : request :=
+  mkReq (formula_SP (fun y => 1 + y) (F * (350 / 4 + 8)) (fun T => F * (T / 4 + 8))) (fun _ => 64 * F) [1; 1; 1]
+        (fun _ _ => Ok 350) 300 [4%nat].
+Example C02_solve_history_nonvacuous :
+  exists T c, solve_alone (1 # 1000000) (exReq 1024) = (Ok T, c) /\ snd c = Some (64 * 1024) /\
+  nth_error (fst (solve_seq (1 # 1000000) ([(7%nat, Some (1 # 16))], [3%nat]) [exReq (1 # 1024); exReq 1024])) 1
+    = Some (Ok T, c) /\
+  drive0 (fun T => formula_SP (fun y => 1 + y) 100 (fun T => T / 4 + 8) T 64) [] 368 = Ok 368.
+Proof. eexists. eexists. split; [vm_compute; reflexivity|]. split; [vm_compute; reflexivity|]. split; vm_compute; reflexivity. Qed.
